@@ -665,6 +665,8 @@ class Models:
                     return FmtV(("join", s, "<symbolic sequence>"))  # text of a message: content irrelevant
                 raise Unsupported(f"str.{name} on symbolic arguments")
             return Builtin("str." + name, f)
+        if not hasattr("", name):
+            raise PyRaise("AttributeError")  # a str has no such attribute
         raise Unsupported(f"str.{name}")
 
     def m_format(self, I, s, args, kw):
